@@ -260,6 +260,10 @@ def tier_b(acc, m, seed, fr):
                 return
         # a listed open descriptor must be followed by a choice with exactly its normalised list
         if c["bond"] is None and c["caller"] == "add_repeat_unit" and c["chosen_list"] is not None:
+            if any(pos == c["log_pos"] + 1 for pos, _name in rng.native_log):
+                # another random primitive was used right after this decision: the listed pick may have been drawn that way
+                acc.count("decision_list_not_observable(Tier A / Tier C decide)")
+                continue
             nxt = rng.log[c["log_pos"] + 1] if len(rng.log) > c["log_pos"] + 1 else None
             lst = c["chosen_list"]
             tot = sum(lst)
